@@ -24,10 +24,12 @@ LEVEL = {
     'C03': {'text': 'Theorems: extractPoints on a sorted batch is the age filter; the batch loop refines per-archive age bands over the stably sorted batch; '
                     'single updates accept iff in (now-maxRet, now] and go to the first archive with retention >= age. Same slot: the sort is stable (equal timestamps keep the supplied order), '
                     'inside a window every slot shows the last point of the sorted batch aligned to it, and two batches with the same per-timestamp subsequences are the same update '
-                    '(so the order of a batch matters only among equal timestamps; between different timestamps of one slot the later timestamp wins - the reading of the last sentence recorded in DESIGN.md 11.4).',
+                    '(so the order of a batch matters only among equal timestamps; between different timestamps of one slot the later timestamp wins - the reading of the last sentence recorded in DESIGN.md 11.4). '
+                    'Whisper.Update / UpdateMany (the calls that read the clock) are the best-archive updates at the instant the library clock shows; they are run with whispertool.Now replaced.',
             'design_ref': '5 C03, 9a, 11.4',
             'note': _TB + 'sort.Stable modelled as stable insertion sort.'},
-    'C04': {'text': 'Theorems: error iff, no-series iff, bounds/step/count of the series as a function of layout, window and clock only; best archive = first covering.',
+    'C04': {'text': 'Theorems: error iff, no-series iff, bounds/step/count of the series as a function of layout, window and clock only; best archive = first covering; '
+                    'Whisper.Fetch and a now argument of 0 obey the same contract at the instant the library clock shows (run with whispertool.Now replaced); a stale max-retention word in the header changes nothing.',
             'design_ref': '5 C04',
             'note': _TB},
     'C05': {'text': 'Theorems on the page-buffer model for any page size, offset and length: writes change the view exactly in the written range and never the disk, reads return the view and change nothing, '
@@ -77,7 +79,8 @@ LEVEL = {
     'C12': {'text': 'Theorems: the view/sum and view-raw responses decode to exactly the header and series/point lists the handler encoded; the empty body is the not-exist answer; '
                     'a text error body never decodes as a header. Request side: for every byte string used as a value (file names with + & % = ; # space, non-ASCII) the query the client builds with QueryEscape '
                     'parses back (ParseQuery, as ParseForm applies it) to exactly the pairs sent; the escaped form never contains a separator. '
-                    'Every read command is run against a real server and against the directory and both are compared with the model; the net/url model is compared with the real package. END TO END (Model/Server.v, Proofs/ServerProofs.v): the /view handler applied to the query the client builds for (file, archive, from, until, now) performs exactly the local read with these arguments, for every byte string as file name, every archive number and every 32-bit window and clock (C12_server_performs_the_local_read), so the client holds the local result, the not-exist answer or an error accordingly (C12_remote_view_is_local_view); the same for /sum (C12_server_performs_the_local_sum). The real handler is run on raw queries of every shape (clirawview) and the request of the real client is captured and compared with that of the model (cliquerycap).',
+                    'Every read command is run against a real server and against the directory and both are compared with the model; the net/url model is compared with the real package. END TO END (Model/Server.v, Proofs/ServerProofs.v): the /view handler applied to the query the client builds for (file, archive, from, until, now) performs exactly the local read with these arguments, for every byte string as file name, every archive number and every 32-bit window and clock (C12_server_performs_the_local_read), so the client holds the local result, the not-exist answer or an error accordingly (C12_remote_view_is_local_view); the same for /sum (C12_server_performs_the_local_sum). The real handler is run on raw queries of every shape (clirawview) and the request of the real client is captured and compared with that of the model (cliquerycap). '
+                    'Which file a name denotes (Model/Path.v = filepath.Clean / Join, extracted and used for every lookup, compared with Go on every run): resolution is idempotent, independent of the spelling of the base, and the server (served directory + name received) and the local read (base + relative name) resolve to the same elements, names that leave the base through .. included.',
             'design_ref': '5 C12',
             'note': _TB + 'net/http is trusted to deliver the handler\'s bytes and headers; url.QueryEscape / ParseForm are modelled in Model/Query.v and compared with the real package.'},
     'C16': {'text': 'Theorems: copy-like commands never answer diff and answer not-exist only for a missing source; no success => existing destination untouched; comparison verdicts are ok/diff/err. '
